@@ -138,8 +138,24 @@ func scenarios() map[string]func(seed uint64, nG, iters int) {
 	}
 	m["limit.Fixed"] = func(s uint64, g, n int) { hammer("limit.Fixed", s, g, n, limitOps(limit.NewFixedLimit("x", 10, nil))) }
 	m["limit.Windowed"] = func(s uint64, g, n int) {
-		w, _ := limit.NewWindowedLimit("w", 1e8, 1e8, 10, 0, limit.NewAIMDLimit("x", 10, 0.9, 1, nil), nil)
+		w, err := limit.NewWindowedLimit("w", 1e8, 1e8, 10, 0, limit.NewAIMDLimit("x", 10, 0.9, 1, nil), nil)
+		if err != nil {
+			panic(err)
+		}
 		hammer("limit.Windowed", s, g, n, limitOps(w))
+	}
+	m["limit.Windowed.fast-windows"] = func(s uint64, g, n int) { // 1 ns windows: most samples with in-flight above the window size close one
+		w, err := limit.NewWindowedLimit("w", 1e8, 1e8, 10, 0, limit.NewDefaultVegasLimitWithLimit("x", 10, nil, nil), nil)
+		if err != nil {
+			panic(err)
+		}
+		// sample start times 200 ms apart (they are arguments): every sample with in-flight above the window size closes a window
+		var clock atomic.Int64
+		ops := limitOps(w)
+		ops[0] = op{"OnSample", func(r *rand.Rand) {
+			w.OnSample(clock.Add(2e8), 1+r.Int64N(1e6), 5+r.IntN(20), r.IntN(10) == 0)
+		}}
+		hammer("limit.Windowed.fast-windows", s, g, n, ops)
 	}
 	m["limit.Traced"] = func(s uint64, g, n int) {
 		hammer("limit.Traced", s, g, n, limitOps(limit.NewTracedLimit(limit.NewDefaultVegasLimit("x", nil, nil), limit.NoopLimitLogger{})))
